@@ -277,6 +277,8 @@ func valToM(v Val) any {
 		return int(v.I)
 	case v.K == "bool":
 		return v.Bo
+	case v.K == "f64":
+		return v.Float()
 	case v.K == "ints":
 		out := []int{}
 		for _, e := range v.E {
@@ -333,6 +335,8 @@ func mPrint(v any) string {
 		return ""
 	case int:
 		return strconv.Itoa(x)
+	case float64:
+		return fmt.Sprintf("%f", x)
 	case string:
 		return refEscapeHTML(x)
 	case bool:
@@ -375,6 +379,8 @@ func mTruthy(v any) bool {
 		return false
 	case int:
 		return x != 0
+	case float64:
+		return x != 0
 	case string:
 		return x != ""
 	case bool:
@@ -407,6 +413,9 @@ func mEqual(a, b any) bool {
 	switch x := a.(type) {
 	case int:
 		y, ok := b.(int)
+		return ok && x == y
+	case float64:
+		y, ok := b.(float64)
 		return ok && x == y
 	case string:
 		y, ok := b.(string)
